@@ -174,6 +174,7 @@ func (e *Explorer) newInterp(solver *Solver, spec pathSpec) *interpreter {
 		tt:         newTermTable(),
 		solver:     solver,
 		maxSteps:   e.cfg.MaxSteps,
+		pcSet:      make(map[*Term]bool),
 		funcInstrs: make(map[*ssa.Function]int64),
 		stubsHit:   make(map[string]int),
 		store:      make(map[string]value),
@@ -356,36 +357,87 @@ func (i *interpreter) decide(c *Term) bool {
 		r.trace = append(r.trace, d)
 		if d.Kind == 'b' {
 			if d.V == 1 {
-				i.solver.Assert(c)
+				i.assertPC(c)
 			} else {
-				i.solver.Assert(i.tt.BNot(c))
+				i.assertPC(i.tt.BNot(c))
 			}
 		}
 		return d.V == 1
 	}
-	cfg := &i.ex.cfg
-	r.queries++
-	r1, _ := i.solver.Check(c, cfg.FeasTimeoutMs, nil)
-	if r1 == "unsat" {
+	nc := i.tt.BNot(c)
+	// syntactically implied by the path condition?
+	if i.pcSet[c] {
+		r.trace = append(r.trace, decision{Kind: 'f', V: 1})
+		return true
+	}
+	if i.pcSet[nc] {
 		r.trace = append(r.trace, decision{Kind: 'f', V: 0})
 		return false
 	}
-	nc := i.tt.BNot(c)
-	r.queries++
-	r2, _ := i.solver.Check(nc, cfg.FeasTimeoutMs, nil)
-	if r2 == "unsat" {
-		if r1 == "unknown" {
-			// cannot tell whether the true side is feasible: keep it
+	cfg := &i.ex.cfg
+	// the last model of the path condition tells one feasible side for free
+	r1, r2 := "", ""
+	if i.model != nil {
+		if c.eval(i.model, i.evalMemo()) == 1 {
+			r1 = "sat"
+		} else {
+			r2 = "sat"
 		}
-		r.trace = append(r.trace, decision{Kind: 'f', V: 1})
-		return true
+	}
+	var m1 map[string]uint64
+	if r1 == "" {
+		r.queries++
+		r1, m1 = i.solver.Check(c, cfg.FeasTimeoutMs, i.tt.vars)
+		if r1 == "unsat" {
+			r.trace = append(r.trace, decision{Kind: 'f', V: 0})
+			return false
+		}
+	}
+	if r2 == "" {
+		r.queries++
+		var m2 map[string]uint64
+		r2, m2 = i.solver.Check(nc, cfg.FeasTimeoutMs, i.tt.vars)
+		if r2 == "unsat" {
+			r.trace = append(r.trace, decision{Kind: 'f', V: 1})
+			return true
+		}
+		_ = m2
 	}
 	// both sides feasible (or unknown): fork
 	alt := append(append([]decision{}, r.trace...), decision{Kind: 'b', V: 0})
 	r.alts = append(r.alts, pathSpec{alt})
 	r.trace = append(r.trace, decision{Kind: 'b', V: 1})
-	i.solver.Assert(c)
+	if m1 != nil {
+		i.setModel(m1)
+	}
+	i.assertPC(c)
 	return true
+}
+
+// assertPC adds c to the path condition and keeps the cached model honest.
+func (i *interpreter) assertPC(c *Term) {
+	i.solver.Assert(c)
+	if len(i.scopes) == 0 {
+		i.pcSet[c] = true
+	} else {
+		i.scopePC[len(i.scopes)-1] = append(i.scopePC[len(i.scopes)-1], c)
+		i.pcSet[c] = true
+	}
+	if i.model != nil && c.eval(i.model, i.evalMemo()) != 1 {
+		i.model = nil
+	}
+}
+
+func (i *interpreter) setModel(m map[string]uint64) {
+	i.model = m
+	i.memo = nil
+}
+
+func (i *interpreter) evalMemo() map[*Term]uint64 {
+	if i.memo == nil {
+		i.memo = make(map[*Term]uint64)
+	}
+	return i.memo
 }
 
 // choose picks one of n structural alternatives (operation, schedule, order).
@@ -446,12 +498,18 @@ func (i *interpreter) concretize(t *Term, what string) uint64 {
 // scopeBegin/scopeEnd implement verifrt.Scope.
 func (i *interpreter) scopeBegin() {
 	i.scopes = append(i.scopes, len(i.run.trace))
+	i.scopePC = append(i.scopePC, nil)
 	i.solver.Push()
 }
 
 func (i *interpreter) scopeEnd() {
 	start := i.scopes[len(i.scopes)-1]
 	i.scopes = i.scopes[:len(i.scopes)-1]
+	for _, c := range i.scopePC[len(i.scopePC)-1] {
+		delete(i.pcSet, c)
+	}
+	i.scopePC = i.scopePC[:len(i.scopePC)-1]
+	i.impliedCache = nil
 	i.solver.Pop()
 	for _, d := range i.run.trace[start:] {
 		if (d.Kind == 'b' && d.V == 0) || (d.Kind == 'c' && d.V > 0) {
@@ -471,16 +529,25 @@ func (i *interpreter) assume(c *Term) {
 	r := i.run
 	if d, ok := i.nextPrefix("a", ""); ok {
 		r.trace = append(r.trace, d)
-		i.solver.Assert(c)
+		i.assertPC(c)
 		return
 	}
-	r.queries++
-	res, _ := i.solver.Check(c, i.ex.cfg.FeasTimeoutMs, nil)
-	if res == "unsat" {
-		panic(pathEnd{"infeasible"})
+	if i.model != nil && c.eval(i.model, i.evalMemo()) == 1 {
+		// the cached model already satisfies c
+	} else {
+		r.queries++
+		res, m := i.solver.Check(c, i.ex.cfg.FeasTimeoutMs, i.tt.vars)
+		if res == "unsat" {
+			panic(pathEnd{"infeasible"})
+		}
+		if res == "sat" {
+			i.setModel(m)
+		} else {
+			i.model = nil
+		}
 	}
 	r.trace = append(r.trace, decision{Kind: 'a'})
-	i.solver.Assert(c)
+	i.assertPC(c)
 }
 
 // ------------------------------------------------------------- assertions
@@ -536,11 +603,18 @@ func (i *interpreter) check(c value, label string) {
 		if d, ok := i.nextPrefix("A", label); ok {
 			r.trace = append(r.trace, d)
 			if d.V == 1 {
-				i.solver.Assert(c)
+				i.assertPC(c)
 			}
 			return
 		}
 		atomic.AddInt64(&i.ex.assertQueries, 1)
+		if c2 := i.resolveItes(c); c2.IsTrue() {
+			r.asserts++
+			r.trace = append(r.trace, decision{Kind: 'A', V: 0, What: label})
+			return
+		} else if !c2.IsFalse() {
+			c = c2
+		}
 		nc := i.tt.BNot(c)
 		vars := i.modelVars()
 		r.queries++
@@ -564,7 +638,7 @@ func (i *interpreter) check(c value, label string) {
 				panic(pathEnd{"violation"})
 			}
 			r.trace = append(r.trace, decision{Kind: 'A', V: 1, What: label})
-			i.solver.Assert(c)
+			i.assertPC(c)
 			return
 		default:
 			i.ex.note("solver returned unknown for assertion " + label)
@@ -651,4 +725,112 @@ func writeJSON(path string, v interface{}) error {
 		return err
 	}
 	return os.WriteFile(path, append(b, '\n'), 0o644)
+}
+
+// implied decides whether the path condition implies c (1), implies ¬c (0)
+// or neither (-1), with at most two small queries, cached per term.
+func (i *interpreter) implied(c *Term) int {
+	if c.IsConst() {
+		return int(c.Val)
+	}
+	if i.pcSet[c] {
+		return 1
+	}
+	if i.pcSet[i.tt.BNot(c)] {
+		return 0
+	}
+	if v, ok := i.impliedCache[c]; ok {
+		return v
+	}
+	res := -1
+	canBeTrue, canBeFalse := true, true
+	if i.model != nil {
+		// the cached model witnesses one side
+		if c.eval(i.model, i.evalMemo()) == 1 {
+			r, _ := i.solver.Check(i.tt.BNot(c), i.ex.cfg.FeasTimeoutMs, nil)
+			canBeFalse = r != "unsat"
+		} else {
+			r, _ := i.solver.Check(c, i.ex.cfg.FeasTimeoutMs, nil)
+			canBeTrue = r != "unsat"
+		}
+	} else {
+		r, _ := i.solver.Check(c, i.ex.cfg.FeasTimeoutMs, nil)
+		canBeTrue = r != "unsat"
+		if canBeTrue {
+			r, _ = i.solver.Check(i.tt.BNot(c), i.ex.cfg.FeasTimeoutMs, nil)
+			canBeFalse = r != "unsat"
+		}
+	}
+	i.run.queries++
+	switch {
+	case canBeTrue && !canBeFalse:
+		res = 1
+	case !canBeTrue && canBeFalse:
+		res = 0
+	}
+	if i.impliedCache == nil {
+		i.impliedCache = make(map[*Term]int)
+	}
+	i.impliedCache[c] = res
+	return res
+}
+
+// resolveItes rewrites t replacing every ite whose condition the path
+// condition decides by the selected branch (sound under the path condition).
+func (i *interpreter) resolveItes(t *Term) *Term {
+	memo := make(map[*Term]*Term)
+	budget := 64
+	var rec func(t *Term) *Term
+	rec = func(t *Term) *Term {
+		if t.Op == OpConst || t.Op == OpVar {
+			return t
+		}
+		if r, ok := memo[t]; ok {
+			return r
+		}
+		tt := i.tt
+		var r *Term
+		switch t.Op {
+		case OpIte:
+			if t.W > 0 && budget > 0 {
+				budget--
+				switch i.implied(t.A) {
+				case 1:
+					r = rec(t.B)
+				case 0:
+					r = rec(t.C)
+				}
+			}
+			if r == nil {
+				r = tt.Ite(t.A, rec(t.B), rec(t.C))
+			}
+		case OpAdd, OpSub, OpMul, OpUDiv, OpSDiv, OpURem, OpSRem, OpAnd, OpOr, OpXor, OpShl, OpLShr, OpAShr:
+			r = tt.Bin(t.Op, rec(t.A), rec(t.B))
+		case OpEq, OpUlt, OpUle, OpSlt, OpSle:
+			r = tt.Cmp(t.Op, rec(t.A), rec(t.B))
+		case OpBAnd:
+			r = tt.BAnd(rec(t.A), rec(t.B))
+		case OpBOr:
+			r = tt.BOr(rec(t.A), rec(t.B))
+		case OpBNot:
+			r = tt.BNot(rec(t.A))
+		case OpNot:
+			r = tt.Not(rec(t.A))
+		case OpNeg:
+			r = tt.Neg(rec(t.A))
+		case OpConcat:
+			r = tt.Concat(rec(t.A), rec(t.B))
+		case OpExtract:
+			r = tt.Extract(rec(t.A), int(t.Val>>8), int(t.Val&0xff))
+		case OpZExt:
+			r = tt.ZExt(rec(t.A), t.W)
+		case OpSExt:
+			r = tt.SExt(rec(t.A), t.W)
+		default:
+			r = t
+		}
+		memo[t] = r
+		return r
+	}
+	return rec(t)
 }
